@@ -33,7 +33,8 @@ ALL = {}
 
 
 def H(mod, name, **kw):
-    d = dict(name=name, full=f"{MODS[mod]}::__verif::{name}", mod=mod, tier="quick", timeout=900)
+    sub = kw.pop("sub", None)
+    d = dict(name=name, full=f"{MODS[mod]}::__verif::{sub + '::' if sub else ''}{name}", mod=mod, tier="quick", timeout=900)
     d.update(kw)
     ALL[name] = d
     return d
@@ -112,8 +113,9 @@ H("gf128", "c20_gf128_reduce_eq_bitserial", what="scalar::gf128_reduce == bit-se
 H("gf128", "c20_clmul64_basis_times_full", what="scalar::clmul64(x^i, y) == y << i and symmetric", bounds="all i < 64, all y", functions=["block::gf128::scalar::clmul64"], panic_prop="C20")
 H("gf128", "c20_clmul64_window16_times_full", tier="thorough", timeout=5400, what="scalar::clmul64 == schoolbook for x an arbitrary 16-bit window at any shift <= 48, y arbitrary", bounds="16-bit window of x, all y", functions=["block::gf128::scalar::clmul64"], panic_prop="C20")
 H("gf128", "c20_clmul128_karatsuba_basis_times_full", what="scalar::clmul128 recombination (clmul64 replaced by its definition): (x^i, b) -> b << i as 256 bits split into (low, high), and symmetric", bounds="all i < 128, all b", functions=["block::gf128::scalar::clmul128"], panic_prop="C20", stubs=["scalar::clmul64 -> schoolbook definition"])
-H("gf128", "c20_pclmul_clmul128_basis_times_full", what="PCLMUL path clmul::clmul128 (instruction replaced by Intel's definition): same basis x full obligation", bounds="all i < 128, all b", functions=["block::gf128::clmul::clmul128"], panic_prop="C20", stubs=["_mm_clmulepi64_si128 -> 64x64 schoolbook of the selected halves"])
-H("gf128", "c20_pclmul_reduce_eq_bitserial", what="PCLMUL path clmul::gf128_reduce == bit-serial reduction", bounds="all 2^256 inputs", functions=["block::gf128::clmul::gf128_reduce"], panic_prop="C20", stubs=["_mm_clmulepi64_si128 -> definition"])
+H("gf128", "c20_clmul128_karatsuba_windows8", timeout=1500, what="scalar::clmul128 recombination (clmul64 replaced by its definition) == schoolbook on two arbitrary 8-bit windows at arbitrary positions", bounds="8-bit windows, shifts 0..=120 each", functions=["block::gf128::scalar::clmul128"], panic_prop="C20", stubs=["scalar::clmul64 -> schoolbook definition"])
+H("gf128", "c20_pclmul_clmul128_basis_times_full", sub="pclmul", what="PCLMUL path clmul::clmul128 (instruction replaced by Intel's definition): same basis x full obligation", bounds="all i < 128, all b", functions=["block::gf128::clmul::clmul128"], panic_prop="C20", stubs=["_mm_clmulepi64_si128 -> 64x64 schoolbook of the selected halves"])
+H("gf128", "c20_pclmul_reduce_eq_bitserial", sub="pclmul", what="PCLMUL path clmul::gf128_reduce == bit-serial reduction", bounds="all 2^256 inputs", functions=["block::gf128::clmul::gf128_reduce"], panic_prop="C20", stubs=["_mm_clmulepi64_si128 -> definition"])
 H("transpose", "c20_portable_transpose_16x16", what="portable::transpose_bitmatrix: out[c][r] == in[r][c]", bounds="every 16x16 input", functions=["transpose::portable::transpose_bitmatrix"], panic_prop="C20", stubs=["_mm_sll_epi64 -> Intel SDM model"])
 H("transpose", "c20_portable_transpose_16x24", tier="thorough", timeout=1800, what="same", bounds="every 16x24 input", functions=["transpose::portable::transpose_bitmatrix"], panic_prop="C20")
 H("transpose", "c20_portable_transpose_32x16", tier="thorough", timeout=1800, what="same", bounds="every 32x16 input", functions=["transpose::portable::transpose_bitmatrix"], panic_prop="C20")
@@ -160,8 +162,8 @@ PROPS["C02"] = dict(
     explanation="Segment harnesses over output() tail and check_dvalue() tail.",
     outside="n=2; max_reg_count=2; one bucket of 3; message *sequences* and cryptographic primitives are outside.",
     assumptions=[FMT, TRACING, SEG, N2],
-    segments=["output_tail", "check_dvalue_tail"],
-    harnesses=hs("c02_output_tail_n2_regs01", "c02_output_tail_n2_regs11", "c02_output_tail_n2_regs10", "c04_check_dvalue_tail_n2_b3"),
+    segments=["output_tail", "check_dvalue_tail", "output_label_check"],
+    harnesses=hs("c02_output_tail_n2_regs01", "c02_output_tail_n2_regs11", "c02_output_tail_n2_regs10", "c04_check_dvalue_tail_n2_b3", "c03_output_label_check_n2_regs01", "c03_output_label_check_n2_regs11"),
 )
 
 PROPS["C03"] = dict(
@@ -269,6 +271,8 @@ PROPS["C20"] = dict(
     outside="transpose shapes 16x16/16x24/32x16; clmul64 full correctness only via basis x full + 16-bit windows (thorough) unless the E2 lemma run is listed.",
     assumptions=[FMT, TRACING, "_mm_clmulepi64_si128 and _mm_sll_epi64 replaced by their Intel SDM definitions", "bilinearity of the recombination is a structural (paper) argument: XOR/shift of bilinear products"],
     harnesses=by_prefix("c20_"),
+    extra=["e2.run:c20_queries"],
+    uses_e2=True,
 )
 
 # ---------------------------------------------------------------------------------------------
